@@ -34,7 +34,7 @@ var c03 = Register("C03", "C03.quorem", func(a c03Args) *Violation {
 		Y := new(big.Int).Mul(ny.Coef, ref.Pow10(ny.Exp-e))
 		qInt, rInt = new(big.Int).QuoRem(X, Y, new(big.Int))
 	}
-	for _, m := range ref.Modes {
+	for _, m := range loopModes() {
 		q, r := x.QuoRemWithMode(y, m)
 		gq, gr := ref.Decode(q), ref.Decode(r)
 		if special {
